@@ -10,7 +10,8 @@
 #define MORTON_COORD_OK_K(k, c) MORTON_COORD_OK((c).m_data[k])
 #define MORTON_DOMAIN(c) VERIF_ALL(DIMS_IN, MORTON_COORD_OK_K, c)
 #define MORTON_BIT(c, q) ((q) < DIMS_IN * MORTON_BITS ? (((uint64_t)(c).m_data[(q) % DIMS_IN] >> ((q) / DIMS_IN)) & 1) : (uint64_t)0)
-#define MORTON_INTERLEAVED(r, c) __CPROVER_forall { unsigned vq; (vq < 64) ==> ((((uint64_t)(r)) >> vq) & 1) == MORTON_BIT(c, vq) }
+#define MORTON_INTERLEAVED_V(r, c, vq) __CPROVER_forall { unsigned vq; (vq < 64) ==> ((((uint64_t)(r)) >> vq) & 1) == MORTON_BIT(c, vq) }
+#define MORTON_INTERLEAVED(r, c) MORTON_INTERLEAVED_V(r, c, vq)
 
 #define CONTRACT_morton_calculate_index(c) \
   __CPROVER_requires(MORTON_DOMAIN(c)) \
